@@ -17,7 +17,9 @@ import (
 	"os"
 	"os/exec"
 	"path/filepath"
+	"regexp"
 	"sort"
+	"strconv"
 	"strings"
 
 	"verifharness/lib"
@@ -57,8 +59,7 @@ func fatal(a ...any) {
 	os.Exit(2)
 }
 
-// buildChild compiles ./cmd/c06/dump against the same gate tree as this binary.
-func buildChild() string {
+func harnessDir() string {
 	hdir, err := os.Getwd()
 	if err != nil {
 		fatal(err)
@@ -66,6 +67,12 @@ func buildChild() string {
 	if _, err := os.Stat(filepath.Join(hdir, "cmd", "c06", "dump", "main.go")); err != nil {
 		hdir = "/verif/harness"
 	}
+	return hdir
+}
+
+// buildChild compiles ./cmd/c06/dump against the same gate tree as this binary.
+func buildChild() string {
+	hdir := harnessDir()
 	repo := os.Getenv("VERIF_REPO")
 	if repo == "" {
 		repo = "/repo"
@@ -240,7 +247,17 @@ func main() {
 						kind = "pseudo-version"
 					}
 				}
-				desc := map[string]any{"state": s, "dir": dr, "protocol": p, "kind": kind, "nil_registry": t.Nil,
+				inverse := len(t.IDs) == len(t.Types)
+				byID := map[int]string{}
+				for _, e := range t.IDs {
+					byID[e.ID] = e.Type
+				}
+				for _, e := range t.Types {
+					if byID[e.ID] != e.Type {
+						inverse = false
+					}
+				}
+				desc := map[string]any{"state": s, "dir": dr, "protocol": p, "kind": kind, "nil_registry": t.Nil, "hint_maps_inverse": inverse, "types": t.Types,
 					"resolved_protocol": t.RegProtocol, "ids": t.IDs, "call": fmt.Sprintf("state.FromDirection(proto.%s, state.%s, %d)", dr, s, p)}
 				size := "empty-table"
 				if len(t.IDs) > 0 {
@@ -250,6 +267,15 @@ func main() {
 					size = "nil-registry"
 				}
 				out.Add(term, desc, len(t.IDs) > 0 || !supported, "kind="+kind, "state="+s, "dir="+dr, size)
+			}
+		}
+	}
+	// translator bookkeeping of the Gen file the proofs and the judge were built from (evidence only)
+	if gen, err := os.ReadFile(filepath.Join(filepath.Dir(harnessDir()), "coq", "Gen", "Registry.v")); err == nil {
+		for _, k := range []string{"untranslated", "n_registrations", "n_mappings", "n_versions"} {
+			if m := regexp.MustCompile(`Definition ` + k + ` : nat := (\d+)%nat`).FindSubmatch(gen); m != nil {
+				n, _ := strconv.Atoi(string(m[1]))
+				out.Extra("translator_registry_"+k, n)
 			}
 		}
 	}
